@@ -474,6 +474,30 @@ def check(ctx):
                    'a presence node is deleted only when the host it '
                    'records *equals* this host')
     ctx.require(n >= 3, 'deletes in EndpointPresence.unregister_*')
+    # ... and those owner-checked routines are the only places of the module
+    # where a running / endpoint / identity node is deleted: clean-up code
+    # (kill_node, ...) goes through them, never around them
+    kinds = ('path.running(', 'path.endpoint(', 'path.identity_group(')
+    for func in pres.all_functions():
+        if func.cls is ep and func.name.startswith('unregister'):
+            continue
+        for call in K.calls(func.node):
+            if not _is_zk_write(call):
+                continue
+            name = K.callee_text(call)
+            if not ('delete' in name):
+                continue
+            texts = [K.rtxt(func, a) for a in call.args]
+            if any(k in t for k in kinds for t in texts):
+                ctx.fail('C17.5', func, call,
+                         'a presence node is deleted outside the '
+                         'owner-checked unregister routines: %s' %
+                         N.txt(call)[:80],
+                         construct='unchecked delete in %s' % func.name)
+    ctx.ob('C17.5', 'treadmill.presence', None, True,
+           'running / endpoint / identity nodes are deleted only by the '
+           'owner-checked EndpointPresence.unregister_* routines',
+           construct='delete owner in presence.py', file=pres.rel)
     tz = index.module(TRZK)
     uns = tz.functions.get('_unschedule')
     ctx.require(uns is not None, 'trace.app.zk._unschedule')
